@@ -102,7 +102,8 @@ class ShardFile:
 class Reader:
     def __init__(self, scale_dir, spec):
         self.dir = scale_dir
-        self.spec = spec
+        # "minishard_index_encoding" and "data_encoding" are optional, default "raw"
+        self.spec = dict({"minishard_index_encoding": "raw", "data_encoding": "raw"}, **spec)
         self.notes = set()
         self._files = {}
 
